@@ -278,3 +278,154 @@ func RandPartition(r interface{ Intn(int) int }, n int, maxChunk int) []int {
 	}
 	return out
 }
+
+// ---- buffered in-memory duplex connection ----
+
+type bufHalf struct {
+	mu     sync.Mutex
+	cond   *sync.Cond
+	buf    []byte
+	closed bool // writer side closed: reader gets EOF after draining
+	broken bool // reader side closed: writes fail
+	total  int64
+}
+
+func newBufHalf() *bufHalf { h := &bufHalf{}; h.cond = sync.NewCond(&h.mu); return h }
+
+// BufConn is one end of an in-memory duplex connection with unbounded buffering
+// (writes never block), settable addresses and close accounting.
+type BufConn struct {
+	rd, wr   *bufHalf
+	Remote   net.Addr
+	Local    net.Addr
+	Closes   atomic.Int64
+	closed   atomic.Bool
+	deadline atomic.Int64 // unix nano read deadline (0 = none)
+	MaxRead  int
+}
+
+// BufPipe returns two connected ends. aRemote is what a.RemoteAddr() reports.
+func BufPipe(aRemote, bRemote string) (a, b *BufConn) {
+	x, y := newBufHalf(), newBufHalf()
+	a = &BufConn{rd: x, wr: y, Remote: FakeAddr{"tcp", aRemote}, Local: FakeAddr{"tcp", bRemote}}
+	b = &BufConn{rd: y, wr: x, Remote: FakeAddr{"tcp", bRemote}, Local: FakeAddr{"tcp", aRemote}}
+	return
+}
+
+type timeoutErr struct{}
+
+func (timeoutErr) Error() string   { return "i/o timeout" }
+func (timeoutErr) Timeout() bool   { return true }
+func (timeoutErr) Temporary() bool { return true }
+
+func (c *BufConn) Read(p []byte) (int, error) {
+	h := c.rd
+	h.mu.Lock()
+	defer h.mu.Unlock()
+	for {
+		if c.closed.Load() {
+			return 0, net.ErrClosed
+		}
+		if len(h.buf) > 0 {
+			n := copy(p, h.buf)
+			if c.MaxRead > 0 && n > c.MaxRead {
+				n = c.MaxRead
+			}
+			h.buf = h.buf[n:]
+			return n, nil
+		}
+		if h.closed {
+			return 0, io.EOF
+		}
+		if d := c.deadline.Load(); d != 0 {
+			rem := time.Until(time.Unix(0, d))
+			if rem <= 0 {
+				return 0, timeoutErr{}
+			}
+			t := time.AfterFunc(rem, func() { h.mu.Lock(); h.cond.Broadcast(); h.mu.Unlock() })
+			h.cond.Wait()
+			t.Stop()
+			continue
+		}
+		h.cond.Wait()
+	}
+}
+
+func (c *BufConn) Write(p []byte) (int, error) {
+	if c.closed.Load() {
+		return 0, net.ErrClosed
+	}
+	h := c.wr
+	h.mu.Lock()
+	defer h.mu.Unlock()
+	if h.broken || h.closed {
+		return 0, io.ErrClosedPipe
+	}
+	h.buf = append(h.buf, p...)
+	h.total += int64(len(p))
+	h.cond.Broadcast()
+	return len(p), nil
+}
+
+// CloseWrite half-closes: the peer reads EOF after draining.
+func (c *BufConn) CloseWrite() error {
+	h := c.wr
+	h.mu.Lock()
+	h.closed = true
+	h.cond.Broadcast()
+	h.mu.Unlock()
+	return nil
+}
+
+func (c *BufConn) Close() error {
+	c.Closes.Add(1)
+	if c.closed.Swap(true) {
+		return nil
+	}
+	c.wr.mu.Lock()
+	c.wr.closed = true
+	c.wr.cond.Broadcast()
+	c.wr.mu.Unlock()
+	c.rd.mu.Lock()
+	c.rd.broken = true
+	c.rd.cond.Broadcast()
+	c.rd.mu.Unlock()
+	return nil
+}
+
+// IsClosed reports whether Close was called on this end.
+func (c *BufConn) IsClosed() bool { return c.closed.Load() }
+
+// Pending returns the bytes waiting to be read on this end.
+func (c *BufConn) Pending() int {
+	c.rd.mu.Lock()
+	defer c.rd.mu.Unlock()
+	return len(c.rd.buf)
+}
+
+// PeerClosed reports whether the other end closed (or half-closed) its write side.
+func (c *BufConn) PeerClosed() bool {
+	c.rd.mu.Lock()
+	defer c.rd.mu.Unlock()
+	return c.rd.closed
+}
+
+func (c *BufConn) LocalAddr() net.Addr  { return c.Local }
+func (c *BufConn) RemoteAddr() net.Addr { return c.Remote }
+func (c *BufConn) SetDeadline(t time.Time) error {
+	return c.SetReadDeadline(t)
+}
+func (c *BufConn) SetReadDeadline(t time.Time) error {
+	if t.IsZero() {
+		c.deadline.Store(0)
+	} else {
+		c.deadline.Store(t.UnixNano())
+	}
+	c.rd.mu.Lock()
+	c.rd.cond.Broadcast()
+	c.rd.mu.Unlock()
+	return nil
+}
+func (c *BufConn) SetWriteDeadline(t time.Time) error { return nil }
+
+var _ net.Conn = (*BufConn)(nil)
